@@ -77,7 +77,8 @@ class VMModel:
             if role in by:
                 raise AnalysisBroken('two VM fields qualify for role %s: %s, %s' % (role, by[role], name))
             by[role] = name
-        ints = [fld['name'] for fld in self.vm['fields'] if fld['cty'] == 'int']
+        INTS = ('int', 'unsigned int', 'short', 'unsigned short', 'long', 'unsigned long', 'long long', 'unsigned long long', 'signed char', 'unsigned char')
+        ints = [fld['name'] for fld in self.vm['fields'] if fld['cty'] in INTS]
         not_ip = set()
         if len(ints) > 1:
             # several integer fields: the instruction pointer is the one that indexes the code array
@@ -114,11 +115,13 @@ class VMModel:
                 by['other'].append(fld['name'])
             elif c == 'bool':
                 put('stepping', fld['name'])
-            elif c == 'int':
+            elif c in INTS:
+                # (an instruction pointer of another width is still the instruction pointer; its width is the W rule's finding)
                 put('ip', fld['name'])
-            elif c == 'Theo::Program':
+            elif c.replace('const ', '').replace(' &', '').replace(' *', '').strip() == 'Theo::Program':
+                # (a program held by reference or pointer is still the program this machine runs; that it is not its own is C18.P6's finding)
                 put('code', fld['name'])
-            elif c.startswith('std::vector<int'):
+            elif c.startswith('std::vector<int') or any(c.startswith('std::vector<%s' % t_) for t_ in INTS):
                 put('data', fld['name'])
             elif c.startswith('std::vector<Theo::VM::Activation'):
                 put('stack', fld['name'])
